@@ -428,6 +428,18 @@ func (s *programState) getCachedBalance(account string, asset string) *big.Int {
 	return assetBalance
 }
 
+// Amount that the statement currently being executed has already
+// pulled from the given account (an account can appear many times in a source)
+func (s *programState) alreadySentFrom(account string) *big.Int {
+	total := new(big.Int)
+	for _, sender := range s.Senders {
+		if sender.Name == account {
+			total.Add(total, sender.Monetary)
+		}
+	}
+	return total
+}
+
 func (s *programState) sendAllToAccount(accountLiteral parser.ValueExpr, ovedraft *big.Int) (*big.Int, InterpreterError) {
 	account, err := evaluateExprAs(s, accountLiteral, expectAccount)
 	if err != nil {
@@ -444,6 +456,7 @@ func (s *programState) sendAllToAccount(accountLiteral parser.ValueExpr, ovedraf
 
 	// we sent balance+overdraft (nothing, if the account is already beyond its overdraft limit)
 	sentAmt := new(big.Int).Add(balance, ovedraft)
+	sentAmt.Sub(sentAmt, s.alreadySentFrom(*account))
 	if sentAmt.Sign() == -1 {
 		sentAmt.SetInt64(0)
 	}
@@ -534,6 +547,8 @@ func (s *programState) trySendingToAccount(accountLiteral parser.ValueExpr, amou
 
 		// that's the amount we are allowed to send (balance + overdraft)
 		safeSendAmt := new(big.Int).Add(balance, overdraft)
+		// the cached balance is only updated at the end of the statement
+		safeSendAmt.Sub(safeSendAmt, s.alreadySentFrom(*account))
 		if safeSendAmt.Sign() == -1 {
 			// the account is already beyond its overdraft limit: it cannot send anything
 			safeSendAmt.SetInt64(0)
